@@ -143,6 +143,21 @@ def check(ctx, report):
     report.rule('C04.R7', 'SSL 2.0 record: the length the completeness gate waits for is the RECORD-LENGTH of the specification for every header value')
     ssl2_parse_header(ctx, report, model.cls('SslRecord'), RULE='C04.R7')
     report.floor('C04.R7', 1000, 'tabulated SSL 2.0 header values')
+    # a reader that loops over a stream removes the reported length after each record: a length that is not the number of
+    # bytes the record occupied makes the next record start in the wrong place (shared with C03.R3, framing units only)
+    from .c03 import return_lengths
+    report.rule('C04.R8', 'framing unit: the length reported with the record is the number of bytes the record occupied')
+    return_lengths(ctx, report, RULE='C04.R8', only={n for n, _k, _kind in FRAMING} | framing_subclasses(ctx))
+    report.floor('C04.R8', 8, 'framing unit parse results')
+
+
+def framing_subclasses(ctx):
+    names = {n for n, _k, _kind in FRAMING}
+    out = set()
+    for c in ctx.model.concrete_parsables():
+        if any(getattr(b, 'name', None) in names for b in c.mro):
+            out.add(c.name)
+    return out
 
 
 def reviewed_fact(cons, f, call, payload):
